@@ -424,8 +424,27 @@ Definition base_msg_of_toks (ts : list tok) : option base_msg :=
   | [] => None
   end.
 
+(** [bank.MultiSend <from> <coins> <to1> <coins1> <to2> <coins2> ...]: one input, any number of outputs *)
+Fixpoint outs_of_toks (ts : list tok) : option (list (bytes * coins)) :=
+  match ts with
+  | [] => Some []
+  | a :: cs :: r =>
+      match bytes_of_tok a, coins_of_tok cs, outs_of_toks r with
+      | Some a', Some cs', Some r' => Some ((a', cs') :: r') | _, _, _ => None end
+  | _ => None
+  end.
+Definition multi_send_of_toks (args : list tok) : option base_msg :=
+  match args with
+  | f :: cs :: outs =>
+      match bytes_of_tok f, coins_of_tok cs, outs_of_toks outs with
+      | Some f', Some cs', Some outs' => Some (BMultiSend f' cs' outs') | _, _, _ => None end
+  | _ => None
+  end.
+
 (** messages whose arguments are not all byte strings *)
 Definition base_msg_of_toks2 (ts : list tok) : option base_msg :=
+  match ts with
+  | kind :: args => if tok_is kind "bank.MultiSend" then multi_send_of_toks args else
   match ts with
   | [kind; f; t; cs] =>
       if tok_is kind "bank.Send" then
@@ -442,6 +461,8 @@ Definition base_msg_of_toks2 (ts : list tok) : option base_msg :=
         | Some g', Some r', Some u', Some ex' => Some (BGrant g' r' u' ex') | _, _, _, _ => None end
       else base_msg_of_toks ts
   | _ => base_msg_of_toks ts
+  end
+  | [] => base_msg_of_toks ts
   end.
 
 Definition print_n (n : N) : bytes := print_dec n.
